@@ -19,6 +19,7 @@ type shapeCase struct {
 	Expect   string `json:"expect"`
 	Name     string `json:"name"`    // config change name
 	Outcome  string `json:"outcome"` // expected outcome of a config change
+	Copy     string `json:"copy"`    // config change: both | config | params (which stored copy of the FRI configuration changes)
 }
 
 type c20Req struct {
@@ -236,12 +237,22 @@ func c20(raw json.RawMessage, resp *drv.Response) error {
 				*p = uint64(int64(*p) + int64(delta))
 				return true
 			}
+			// the description stores the FRI configuration twice (config.fri_config and fri_params.config): c.Copy says which copy changes
+			both := func(a, b *uint64) bool {
+				switch c.Copy {
+				case "config":
+					return add(a)
+				case "params":
+					return add(b)
+				}
+				return add(a) && add(b)
+			}
 			ok := true
 			switch c.Name {
 			case "num_query_rounds":
-				ok = add(&cd.Config.FriConfig.NumQueryRounds) && add(&cd.FriParams.Config.NumQueryRounds)
+				ok = both(&cd.Config.FriConfig.NumQueryRounds, &cd.FriParams.Config.NumQueryRounds)
 			case "cap_height":
-				ok = add(&cd.Config.FriConfig.CapHeight) && add(&cd.FriParams.Config.CapHeight)
+				ok = both(&cd.Config.FriConfig.CapHeight, &cd.FriParams.Config.CapHeight)
 			case "reduction_arity_bits":
 				if delta > 0 {
 					cd.FriParams.ReductionArityBits = append(append([]uint64{}, cd.FriParams.ReductionArityBits...), 4)
@@ -253,7 +264,7 @@ func c20(raw json.RawMessage, resp *drv.Response) error {
 			case "degree_bits":
 				ok = add(&cd.DegreeBits)
 			case "rate_bits":
-				ok = add(&cd.Config.FriConfig.RateBits) && add(&cd.FriParams.Config.RateBits)
+				ok = both(&cd.Config.FriConfig.RateBits, &cd.FriParams.Config.RateBits)
 			default:
 				return fmt.Errorf("unknown config change %s", c.Name)
 			}
@@ -261,9 +272,9 @@ func c20(raw json.RawMessage, resp *drv.Response) error {
 				continue
 			}
 			out, msg := runShape(l, req.Wrapper)
-			resp.Count(fmt.Sprintf("config/%s/%d/%s/%+d/%s", req.Instance, req.K, c.Name, delta, req.Wrapper), false)
+			resp.Count(fmt.Sprintf("config/%s/%d/%s/%s/%+d/%s", req.Instance, req.K, c.Name, c.Copy, delta, req.Wrapper), false)
 			if out == "accept" {
-				resp.Violate(fmt.Sprintf("c20/config/accept name=%s", c.Name),
+				resp.Violate(fmt.Sprintf("c20/config/accept name=%s copy=%s", c.Name, c.Copy),
 					fmt.Sprintf("%s k=%d: the unchanged proof is accepted against a description with %s %+d", req.Instance, req.K, c.Name, delta), map[string]any{"instance": req.Instance, "config": c, "delta": delta})
 			} else if out != c.Outcome {
 				resp.Inc("class_mismatch", 1)
@@ -271,7 +282,8 @@ func c20(raw json.RawMessage, resp *drv.Response) error {
 					resp.Note("class_mismatch_example", fmt.Sprintf("config %s %+d: model %s, code %s (%s)", c.Name, delta, c.Outcome, out, msg))
 				}
 			}
-			resp.Sample(map[string]any{"config": c.Name, "delta": delta, "outcome": out, "model": c.Outcome, "msg": msg})
+			resp.Sample(map[string]any{"config": c.Name, "copy": c.Copy, "delta": delta, "outcome": out, "model": c.Outcome, "msg": msg})
+			resp.Results = append(resp.Results, map[string]any{"config": c.Name, "copy": c.Copy, "delta": delta, "outcome": out, "msg": msg})
 		}
 	}
 	return nil
